@@ -463,6 +463,7 @@ func (e *Engine) verifyFunc(fn *ssa.Function, con *Contract) *FnCtx {
 	c.usesLock = con != nil && con.Locked
 	c.cellsMode = con != nil && con.Cells
 	c.provMode = con != nil && con.Prov
+	c.strOrder = con != nil && con.Order
 	c.useLines = con != nil && con.Lines
 	c.checked = con != nil && con.Arith == "checked"
 	if fn.Blocks == nil {
